@@ -370,6 +370,12 @@ def cases(tier):
                            "noise": noise, "tilt": 0.0, "drift": 0.0,
                            "lag": lag, "quant": 0.0, "n": n,
                            "drive": "cos", "only_smooth": True})
+    if tier == "quick":
+        # the witness of D22 (a sample-to-sample reversal that central
+        # differences overlook)
+        cs.append({"kind": "grid", "model": "hertz_para", "noise": 1e-5,
+                   "tilt": 0.0, "drift": 0.0, "lag": 8, "quant": 0.0,
+                   "n": 40000, "drive": "cos", "only_smooth": True})
     for f in RECORDED:
         if f.endswith("force-map"):
             for en in range(4):
